@@ -422,6 +422,11 @@ func (vc *VC) instr(st *State, in ssa.Instruction) {
 		default:
 			id := vc.fresh("iface", "Int")
 			st.assume(vc, Lt(id, "0")) // boxed scalars: non-nil, not an allocated object
+			if isString(x.X.Type()) && v.K == KInt {
+				// a string boxed in an interface keeps its value (spec function ifaceStr)
+				vc.declareFun("ifaceStr", []string{"Int"}, "Int")
+				vc.define(Eq(app("ifaceStr", id), v.S))
+			}
 			vc.vals[x] = IntV(id, x.Type())
 		}
 	case *ssa.FieldAddr:
